@@ -46,7 +46,13 @@ type retained struct {
 	deep string
 }
 
+// rejCand: a rejection worded differently inside a concurrent group than alone (decided at the
+// end of the plan, when it is known whether the wording of that rejection is stable at all).
+type rejCand struct{ op, ref, method, detail string }
+
 type planExec struct {
+	rejCands   []rejCand
+	grouped    map[string]bool   // ids of operations that ran as tasks of a concurrent group
 	reqDigest  map[string]string // op id -> digest of the request body it carried
 	w          *World
 	plan       *Plan
@@ -55,6 +61,37 @@ type planExec struct {
 	retained   []retained
 	out        *PlanResult
 	handleDeep map[string]string // request values the library client holds, as they were when created
+}
+
+// settleRejections: a rejection worded differently next to other requests than alone is a C10
+// violation where two executions of the request ALONE agree word for word.
+func (x *planExec) settleRejections() {
+	for _, c := range x.rejCands {
+		solo, task := c.ref, c.op
+		if x.grouped[solo] {
+			solo, task = c.op, c.ref
+		}
+		base := x.results[solo]
+		if base == nil {
+			continue
+		}
+		stable := false
+		for _, op := range x.plan.Ops {
+			if op.Kind == "group" || op.ID == solo || op.Expect == nil || op.Expect.SameAs != solo {
+				continue
+			}
+			if r := x.results[op.ID]; r != nil && r.Class() == "reject" && r.Kind == base.Kind &&
+				x.reqDigest[op.ID] == x.reqDigest[solo] && bytes.Equal(r.Body, base.Body) {
+				stable = true
+			}
+		}
+		if !stable {
+			x.out.Stats.Cells["rejections-compared/wording-not-stable-alone"]++
+			continue
+		}
+		x.violate("C10", "rejection-differs", task, "C10|rejection-differs|"+c.method,
+			"same request, rejected every time, alone always with the same message, but with another message next to other requests (%s vs %s): %s", solo, task, c.detail)
+	}
 }
 
 func (x *planExec) violate(prop, oracle, op, key, format string, a ...interface{}) {
@@ -92,6 +129,7 @@ func ExecPlan(w *World, plan *Plan) *PlanResult {
 			break // a blocked handler was abandoned: this node is done after this plan
 		}
 	}
+	x.settleRejections()
 	x.out.Stats.Ticks = w.totalTicks - t0
 	x.out.Stats.Switches = w.totalSwitches - s0
 	x.out.Stats.MapDecisions = w.mapDecided - m0
@@ -219,10 +257,14 @@ func (x *planExec) execGroup(op *Op) {
 	results := make([]*OpResult, n)
 	fns := make([]func(t *Task), n)
 	est := make([]int64, n)
+	if x.grouped == nil {
+		x.grouped = map[string]bool{}
+	}
 	for i, tk := range op.Tasks {
 		if tk.ID == "" {
 			tk.ID = fmt.Sprintf("%s.t%d", op.ID, i)
 		}
+		x.grouped[tk.ID] = true
 		i, tk := i, tk
 		if tk.Expect != nil && tk.Expect.SameAs != "" {
 			if ref := x.results[tk.Expect.SameAs]; ref != nil {
@@ -515,12 +557,14 @@ func (x *planExec) checkSame(op *Op, res *OpResult, refID, method string) {
 				x.out.Stats.Cells["rejections-compared/same-bytes"]++
 			} else {
 				x.out.Stats.Cells["rejections-compared/other-wording"]++
-				if prop == "C10" {
+				if prop == "C10" && (x.grouped[op.ID] || x.grouped[refID]) {
 					// C10 asks for "exactly the responses the same requests produce one at a time": alone
 					// and in the group the request runs under the same map order, so even the wording
-					// of a rejection has no reason to differ - unless another request's failure leaked in
-					x.violate("C10", "rejection-differs", op.ID, "C10|rejection-differs|"+method,
-						"same request, rejected both times, but with another message next to other requests (%s vs %s): %s", refID, op.ID, firstDiff(errText(ref), errText(res)))
+					// of a rejection has no reason to differ - unless another request's failure leaked
+					// in. Decided at the end of the plan: only where this rejection is worded the same
+					// way whenever the request runs alone (a service may put ids or times into it)
+					x.rejCands = append(x.rejCands, rejCand{op: op.ID, ref: refID, method: method,
+						detail: firstDiff(errText(ref), errText(res))})
 				}
 			}
 		}
